@@ -45,6 +45,9 @@ type Case struct {
 	// RegisterField call is made (a warm-up whose response is not looked at) - the bindings the
 	// application registers arrive after the root has already been used.
 	LateRegister bool `json:"late_register,omitempty"`
+	// ViaAPI: the schema is given to the root through the Go API (hx.BuildAPI, interfaces without
+	// their Root member) instead of as SDL text
+	ViaAPI bool `json:"via_api,omitempty"`
 	// ExtraSDL is loaded after the schema (extensions the harness' schema model does not describe,
 	// e.g. a field no Go member answers to).
 	ExtraSDL string `json:"extra_sdl,omitempty"`
@@ -643,8 +646,18 @@ func NewWorld(c *Case) (*World, error) {
 	if c.AnyInstalled {
 		w.Root.AnyResolver = &anyRes{w: w}
 	}
-	if err := w.Root.ParseString(c.Schema.SDL(hx.SDLOpts{})); err != nil {
-		return nil, fmt.Errorf("schema rejected: %w\n%s", err, c.Schema.SDL(hx.SDLOpts{}))
+	built := false
+	if c.ViaAPI {
+		err, usable := hx.BuildAPI(w.Root, c.Schema, hx.BuildOpts{NoInterfaceRoot: true})
+		if usable && err != nil {
+			return nil, fmt.Errorf("schema built with the Go API rejected: %w\n%s", err, c.Schema.SDL(hx.SDLOpts{}))
+		}
+		built = usable
+	}
+	if !built {
+		if err := w.Root.ParseString(c.Schema.SDL(hx.SDLOpts{})); err != nil {
+			return nil, fmt.Errorf("schema rejected: %w\n%s", err, c.Schema.SDL(hx.SDLOpts{}))
+		}
 	}
 	if c.ExtraSDL != "" {
 		if err := w.Root.ParseString(c.ExtraSDL); err != nil {
